@@ -490,6 +490,19 @@ pub fn bfs_check<const N: usize>(prop: &str, o: &Opts, rep: &mut Report) {
     if prop == "C03" && o.shard.0 == 0 {
         crate::zst::zst_twin::<N>(prop, rep);
     }
+    if prop == "C11" && N == 0 && o.shard.0 == 0 {
+        // the boundary of the documented panics at len == usize::MAX
+        for p in crate::c19::huge_full_probes() {
+            rep.violation(Violation {
+                sig: format!("cap=usize::MAX:full:{}", p.split(':').next().unwrap_or("").replace(' ', "_")),
+                detail: format!("completely full CircularBuffer<usize::MAX, ()>: {}", p),
+                replay: ReplayCase { n: 0, ctor: "new".into(), recipe: "0,0".into(), filling: "none".into(), act: "huge-full".into(), fault: "none".into(), extra: String::new() },
+            });
+        }
+        rep.transitions += 30;
+        rep.validated += 30;
+        rep.count("full_usize_max_probes", 30);
+    }
 }
 
 /// Every constructor, every source length 0..=2N+1: contents, ownership, panics, allocations.
